@@ -99,6 +99,12 @@ func (server *Server) RegisterExexutor(cmd string, executor Executor) {
 
 // Start starts the server.
 func (server *Server) Start() error {
+	// A running server is not started again: its listeners would be lost and
+	// Stop could not end its accept loops any more.
+	if server.portListener != nil || server.tlsPortListener != nil {
+		return ErrAlreadyStarted
+	}
+
 	// The authenticator of an earlier start is replaced, otherwise a password
 	// changed before a restart is required in addition to the old one.
 	if server.requirePassAuthenticator != nil {
@@ -121,9 +127,6 @@ func (server *Server) Start() error {
 
 	err = server.open()
 	if err != nil {
-		// A listener that has been opened before the failure is not served
-		// by any accept loop; it is not left open.
-		server.close()
 		return err
 	}
 	verifPoint("start.opened")
@@ -180,34 +183,55 @@ func (server *Server) Restart() error {
 
 // open opens a listen socket.
 func (server *Server) open() error {
-	var err error
+	// The listeners are handed over to the server only if all of them could
+	// be opened; a listener that has been opened before a failure is not
+	// served by any accept loop and is not left open.
+	var portListener, tlsPortListener net.Listener
+	var tlsConfig *tls.Config
+	closeOpened := func() {
+		if portListener != nil {
+			portListener.Close()
+		}
+		if tlsPortListener != nil {
+			tlsPortListener.Close()
+		}
+	}
 
 	if server.IsPortEnabled() {
 		addr := net.JoinHostPort(server.Addr, strconv.Itoa(server.ConfigPort()))
-		server.portListener, err = net.Listen("tcp", addr)
+		l, err := net.Listen("tcp", addr)
 		if err != nil {
 			return err
 		}
+		portListener = l
 		log.Infof("%s/%s (%s) started", PackageName, Version, addr)
 	}
 
 	if server.IsTLSPortEnabled() {
-		tlsConfig, ok := server.ConfigTLSConfig()
-		if ok {
-			server.tlsConfig = tlsConfig
-		} else {
-			tlsConfig, err := NewTLSConfigFrom(server.ServerConfig)
+		config, ok := server.ConfigTLSConfig()
+		if !ok {
+			var err error
+			config, err = NewTLSConfigFrom(server.ServerConfig)
 			if err != nil {
+				closeOpened()
 				return err
 			}
-			server.tlsConfig = tlsConfig
 		}
+		tlsConfig = config
 		addr := net.JoinHostPort(server.Addr, strconv.Itoa(server.ConfigTLSPort()))
-		server.tlsPortListener, err = net.Listen("tcp", addr)
+		l, err := net.Listen("tcp", addr)
 		if err != nil {
+			closeOpened()
 			return err
 		}
+		tlsPortListener = l
 		log.Infof("%s/%s (%s) started", PackageName, Version, addr)
+	}
+
+	server.portListener = portListener
+	server.tlsPortListener = tlsPortListener
+	if tlsConfig != nil {
+		server.tlsConfig = tlsConfig
 	}
 
 	return nil
